@@ -18,7 +18,13 @@ LEVEL_TEXT = "Theorems in Properties_C08.v: every emitter (read/write requests 8
 LEVEL_NOTE = 'Trusted: Coq kernel; hand model of register-protocol.c + hand-written reading of doc/regp.txt; SLIP and varint specifications shared with C12/C14; correspondence. Block sizes < 2^32. No axioms.'
 
 def gen(rng, tier):
-    yield from gen_emit(rng, 60 if tier == 'thorough' else 6)
+    for l in gen_emit(rng, 60 if tier == 'thorough' else 6):
+        yield l
+        # the same emission from an instance that was re-attached (channel, memory, allocator: same arguments) after its session
+        # had started: reconfiguration must not disturb the sequence numbering
+        t = l.split(' ')
+        if t[0] == 'rp.emit' and t[3] != '0':
+            yield ' '.join(t[:1] + [str(int(t[1]) + 2)] + t[2:])
 
 def nontrivial(c):
     return True
